@@ -153,6 +153,17 @@ def check_batt_life(sess, op, res):
         # run out', the property does not speak about it
         sess.stats["c18_zero_current_skipped"] += 1
         return
+    if res[0] != "ok" and not deps and not m.sys_phases:
+        # the call stopped before the first depletion: a battery that delivers
+        # no current at all has no 'time to draw a thousandth of its capacity'
+        # (same reading as above); decided with a from-scratch solve
+        fr0 = sess._guard(lambda: sess.build_fresh().solve())
+        if fr0[0] == "ok":
+            t0 = O.Table(fr0[1])
+            row0 = t0.comp.get("", {}).get(name)
+            if row0 is not None and row0.get("Iout (A)") == 0:
+                sess.stats["c18_zero_current_skipped"] += 1
+                return
     if res[0] != "ok":
         if res[1] == "PeerLimit":
             sess.stats["c18_peer_limit"] += 1
